@@ -224,6 +224,7 @@ var props = map[string]*propDef{
 		ID: "C08", Level: "model_checking", Rule: ruleDefault,
 		Assumptions: append([]string{
 			"the transport is a harness io.Reader that returns the stream in pieces: one byte per Read, two pieces at every offset, and every one of the 2^(n-1) segmentations of the first 8 bytes",
+			"VerifC08Messages: Progress/Profile messages with 1..3-byte varints behind one already-consumed byte, one byte per Read and two pieces at every offset",
 			"the single-segment outcome the segmented one is compared with is C01's oracle (the appended values) and C07's (a cut stream fails)",
 		}, baseAssumptions...),
 		Harnesses: []harnessDef{
@@ -231,6 +232,8 @@ var props = map[string]*propDef{
 			{Name: "proto.VerifC08PlainLeaves", Must: mustC08, Quick: map[string]int{"maskbytes": 5, "maxcutback": 0, "maxrows": 1, "minstr": 2, "maxstr": 2, "minprec": 3, "maxprec": 3, "minscale": 3, "maxscale": 3}, Thorough: map[string]int{"maxrows": 2, "maxstr": 1}},
 			{Name: "proto.VerifC08Composites", Must: mustC08, Quick: map[string]int{"maskbytes": 5, "maxcutback": 0, "maxrows": 1, "minstr": 1, "maxstr": 1, "mininner": 1, "maxinner": 1}, Thorough: map[string]int{"maxrows": 2, "maxstr": 1, "maxinner": 1}},
 			{Name: "compress.VerifC08Frames", Quick: map[string]int{"maxlen": 2}, Thorough: map[string]int{"maxlen": 3}},
+			// multi-byte varints split at every offset, behind an already-consumed byte of the same segment (seed C08e)
+			{Name: "proto.VerifC08Messages", Must: []string{"segmented-lead-byte", "segmented-message-ok", "segmented-message-values", "segmented-message-consumed-all"}},
 			{Name: "ch.VerifC08ClientIdle"},
 		},
 	},
@@ -262,10 +265,12 @@ var props = map[string]*propDef{
 		ID: "C03", Level: "model_checking", Rule: ruleDefault,
 		Assumptions: append([]string{
 			"Client.Do is run under the cooperative scheduler against a scripted server stream written by the harness' reference encoder (tied to the library's decoders by C17)",
-			"time.Local is UTC (tzdata not read); compression disabled for result blocks in this harness",
+			"time.Local is UTC (tzdata not read); result blocks uncompressed, and in a second run framed with compression enabled (method None, city.CH128 uninterpreted)",
 		}, baseAssumptions...),
 		Harnesses: []harnessDef{
 			{Name: "ch.VerifC03Script", Quick: map[string]int{"maxpackets": 2, "maxfail": 0, "maxchain": 3}, Thorough: map[string]int{"maxpackets": 3, "maxfail": 1, "maxchain": 4, "cbstyles": 1}},
+			// the same scripts over a connection with compression enabled (Data/Totals framed, telemetry blocks not) (seed C03e)
+			{Name: "ch.VerifC03Script", Quick: map[string]int{"compressed": 1, "maxpackets": 2, "maxfail": 0, "maxchain": 1, "cbstyles": 1}, Thorough: map[string]int{"compressed": 1, "maxpackets": 2, "maxfail": 1, "maxchain": 2}},
 			{Name: "ch.VerifC03Script", OnlyTier: "thorough", Thorough: map[string]int{"maxpackets": 2, "maxfail": 1, "maxchain": 3}},
 			{Name: "ch.VerifC03Script", OnlyTier: "thorough", Thorough: map[string]int{"maxpackets": 2, "maxfail": 0, "symversion": 1}},
 		},
